@@ -343,10 +343,13 @@ func (p *Prog) genRefMarshal(g *GenerateDecl) (string, error) {
 	var sb strings.Builder
 	w := func(f string, a ...any) { fmt.Fprintf(&sb, "//@ "+f+"\n", a...) }
 	w("func (%s).MarshalYAML", tname)
-	w("  assuming %s.Ref != \"\" || %s.Value != nil", recv, recv)
+	// (an empty wrapper - no reference, no value - is what `"key": null` unmarshals to: it is
+	// serialised as null again, not dereferenced)
 	w("  modifies nothing")
 	w("  ensures [bare-reference] %s.Ref != \"\" ==> result.1 == nil && typeof(result.0) == type *Ref && result.0.(*Ref) != nil && result.0.(*Ref).Ref == %s.Ref", recv, recv)
-	w("  ensures [value-marshalled] %s.Ref == \"\" ==> result.1 == nil && result.0 != nil && typeof(result.0) != type *Ref", recv)
+	w("  ensures [value-marshalled] %s.Ref == \"\" && %s.Value != nil ==> result.1 == nil && result.0 != nil && typeof(result.0) != type *Ref", recv, recv)
+	w("  ensures [empty-wrapper-is-null] %s.Ref == \"\" && %s.Value == nil ==> result.1 == nil && result.0 == nil", recv, recv)
+	w("  option safety-tags C20")
 	w("  tag %s", strings.Join(tags, " "))
 	return sb.String(), nil
 }
